@@ -711,6 +711,7 @@ func (e *kvElection) StopWithContext(ctx context.Context, opts StopOptions) erro
 	}
 
 	wasLeader := e.isLeader.Load()
+	termToken := e.Token()
 
 	currentState := StateInit
 	if s := e.state.Load(); s != nil {
@@ -795,7 +796,17 @@ func (e *kvElection) StopWithContext(ctx context.Context, opts StopOptions) erro
 	)
 
 	if opts.DeleteKey && wasLeader {
-		if err := e.kv.Delete(e.key); err != nil {
+		if !e.ownsRecord(termToken) {
+			// Preempted, expired or replaced since our last heartbeat: the record
+			// (if any) belongs to a successor and must not be deleted.
+			log := e.getLogger()
+			log.Warn("key_deletion_skipped",
+				append(e.logWithContext(ctx),
+					zap.String("key", e.key),
+					zap.String("reason", "record_not_owned"),
+				)...,
+			)
+		} else if err := e.kv.Delete(e.key); err != nil {
 			log := e.getLogger()
 			log.Warn("key_deletion_failed",
 				append(e.logWithContext(ctx),
@@ -855,6 +866,25 @@ func (e *kvElection) StopWithContext(ctx context.Context, opts StopOptions) erro
 	}
 
 	return nil
+}
+
+// ownsRecord reports whether the live leadership record still names this
+// instance and carries the given term token. The KeyValue interface has no
+// conditional delete, so a takeover between this read and a following Delete is
+// not excluded; but a record that already belongs to a successor is never deleted.
+func (e *kvElection) ownsRecord(token string) bool {
+	if token == "" {
+		return false
+	}
+	entry, err := e.kv.Get(e.key)
+	if err != nil || entry == nil {
+		return false
+	}
+	var payload leadershipPayload
+	if err := json.Unmarshal(entry.Value(), &payload); err != nil {
+		return false
+	}
+	return payload.ID == e.cfg.InstanceID && payload.Token == token
 }
 
 func (e *kvElection) Status() ElectionStatus {
